@@ -993,6 +993,11 @@ fn o_pool() -> Vec<MT> {
         MT::string("a"),
         MT::lang("a", "en"),
         MT::lang("a", "EN"),
+        // near misses: a comparison (Ord/Eq/Hash used by the set-based stores) that drops one
+        // component merges them with a neighbour
+        MT::lang("b", "en"),
+        MT::lang("a", "fr"),
+        MT::string("1"),
         MT::lit("1", xsd("integer")),
         t1(),
         t1_upper(),
